@@ -16,15 +16,15 @@ VARIABLES l, bad, known
 TraceLog == ndJsonDeserialize(IOEnv.TRACE)
 N == Len(TraceLog)
 
-\* the verdict of `matches` is also EXACTLY what the model of the engine (ReVM.tla) computes - also where D40 makes it differ
-\* from the documented semantics
+\* where the verdict of `matches` differs from the documented semantics it is tolerated (D40) only if it is EXACTLY what the model
+\* of the engine as built (ReVM.tla) computes; a verdict that agrees with the semantics is always accepted, so a repair of D40
+\* in the library is not an alarm. (ReVMMC: the model and the semantics agree on every expression without the D40 signature.)
 MatchesAsBuilt(c) == ("vm" \in DOMAIN c /\ c.vm /\ Supported(c.ast)) => c.obs = Matches(c.ast, c.buf, [nocase |-> c.nocase, dotall |-> c.dotall, wide |-> FALSE])
 
 CaseOK(c) ==
   CASE c.kind = "text" -> ObsOK(c.pat, c.mods, c.buf, c.obs)
     [] c.kind = "re"   -> StringObsOK(c)
-    [] c.kind = "matches" -> /\ c.obs = MatchesOp(c.ast, c.buf, [nocase |-> c.nocase, dotall |-> c.dotall, wide |-> FALSE])
-                             /\ MatchesAsBuilt(c)
+    [] c.kind = "matches" -> c.obs = MatchesOp(c.ast, c.buf, [nocase |-> c.nocase, dotall |-> c.dotall, wide |-> FALSE])
     [] c.kind = "rescanerr" -> FALSE      \* a scan of a small buffer with a small expression must end with a verdict, not an error
     [] c.kind = "cond" -> c.obs = Verdict(c.ast, c.env)
     [] c.kind = "load" -> c.ret = LoadBytes(c.file, c.n)
